@@ -33,7 +33,7 @@ CliOk(r) == IF r.outcome = "ok"
             ELSE r.exit # 0 /\ "error" \in r.stderr_kinds
 
 \* ---- sqlite statement guard (C06): identifiers as sequences of character classes --------------------------
-SafeIdent(cls) == cls # <<>> /\ \A k \in 1..Len(cls) : cls[k] \in {"letter", "digit", "underscore"}
+SafeIdent(cls) == \A k \in 1..Len(cls) : cls[k] \in {"letter", "digit", "underscore"}
 \* what may reach the database: nothing unless the identifier is safe; then exactly one SELECT of that table
 SqlOk(identSafe, statements) == IF identSafe THEN \A k \in 1..Len(statements) : statements[k] = "select_star_from_ident" ELSE statements = <<>>
 
